@@ -8,13 +8,19 @@
 namespace TdVerif.DualCoverage
 
 def modelled : List String := [
+  "_td.py:TensorDict._new_unsafe",
   "_td.py:TensorDict._parse_batch_size",
   "base.py:TensorDictBase._items_list",
   "base.py:TensorDictBase._values_list",
   "nn/probabilistic.py:ProbabilisticTensorDictSequential.forward",
   "nn/sequence.py:TensorDictSequential.forward",
+  "tensorclass.py:_from_tensordict",
+  "base.py:_is_tensor_collection",
   "utils.py:_check_keys",
   "utils.py:_getitem_batch_size",
+  "utils.py:_is_non_tensor",
+  "utils.py:_is_tensorclass",
+  "utils.py:_pass_through_cls",
   "utils.py:_parse_to",
   "utils.py:_unravel_key_to_tuple",
   "utils.py:unravel_key",
@@ -24,7 +30,6 @@ def modelled : List String := [
 def differentialOnly : List String := [
   "_contextlib.py:_reverse_to_module",
   "_lazy.py:LazyStackedTensorDict.share_memory_",
-  "_td.py:TensorDict._new_unsafe",
   "_td.py:TensorDict._to_module",
   "_torch_func.py:_cat",
   "_torch_func.py:_stack",
@@ -34,7 +39,6 @@ def differentialOnly : List String := [
   "base.py:TensorDictBase.consolidate",
   "base.py:TensorDictBase.lock_",
   "base.py:TensorDictBase.unflatten_keys",
-  "base.py:_is_tensor_collection",
   "nn/common.py:TensorDictModule.__getattr__",
   "nn/common.py:TensorDictModuleWrapper.__getattr__",
   "nn/params.py:TensorDictParams._new_unsafe",
@@ -44,7 +48,6 @@ def differentialOnly : List String := [
   "nn/utils.py:_set_skip_existing_None.__call__.wrapper",
   "nn/utils.py:set_skip_existing.__enter__",
   "tensorclass.py:_drop_stale_placeholders",
-  "tensorclass.py:_from_tensordict",
   "tensorclass.py:_init_wrapper",
   "tensorclass.py:_init_wrapper.wrapper",
   "tensorclass.py:_setattr_wrapper",
@@ -56,10 +59,7 @@ def differentialOnly : List String := [
   "tensorclass.py:_wrap_td_method.wrapped_func_setter",
   "utils.py:_ContextManager.get_mode",
   "utils.py:_ContextManager.set_mode",
-  "utils.py:_is_non_tensor",
-  "utils.py:_is_tensorclass",
   "utils.py:_lock_after_memmap",
-  "utils.py:_pass_through_cls",
   "utils.py:cache",
   "utils.py:cache.newfun"]
 
